@@ -23,14 +23,23 @@ RULE = (
 ASSUMPTIONS = [
     "a standalone exposure on fresh objects is the meaning of 'fresh'; equality is bit-exact after casting to float64",
     "the caller's objects are compared through a recursive walk of __dict__ / arrays / DataFrames / mappings; xarray trees via to_dict",
-    "calibration-side isolation (every candidate evaluated on a fresh copy) is decided in the C10 check's evaluation log",
+    "calibration variant: every candidate evaluation must start from a fresh copy (detector memory 0, unmutated arguments) and the caller's detector / pipeline / readout must be unchanged afterwards",
 ]
 COMPONENTS = {"real": ["pyxel Processor deep copies / create_new_processor / Processor.replace / observation paths", "dask get_async"], "stub": ["thread pool"]}
 BUDGET = {"quick": {"n": 240, "wall": 100, "determinism": 4}, "thorough": {"n": 6000, "wall": 1500, "determinism": 12}}
-REQUIRED_REACH = ["line_level_preemption", "readout_times_swept", "path:seq", "path:par", "stateful", "mutate_list", "mutate_ndarray", "failed_run_snapshot", "polluted_caller", "mode:sequential", "mode:product"]
+REQUIRED_REACH = ["variant:calibration", "line_level_preemption", "readout_times_swept", "path:seq", "path:par", "stateful", "mutate_list", "mutate_ndarray", "failed_run_snapshot", "polluted_caller", "mode:sequential", "mode:product"]
 
 
 def generate(rng, tier):
+    if rng.random() < 0.08:
+        from .. import calib
+
+        scn = calib.gen_calibration(rng, tier, fit_ranges="full", multi_readout_p=0.0, weights_p=0.0, n_targets=(1, 2), islands=(1, 2))
+        scn["variant"] = "calibration"
+        a = scn["pipeline"]["charge_collection"][0]["arguments"]
+        a.update({"stateful": True, "mutate": True, "mvec": [1.0, 2.0], "extra": {"k": 1}})
+        scn["nd_args"] = rng.random() < 0.5
+        return scn
     scn = obs.gen_observation(rng, tier, stochastic_p=0.0, sleep_p=0.3, stateful_p=0.5, mutate_p=0.5, obs_modes=("product", "sequential"))
     scn["path"] = rng.choice(["seq", "par"])
     scn["sched"] = obs.gen_sched(rng, preemptive_ok=True)
@@ -58,6 +67,8 @@ def generate(rng, tier):
 
 
 def shrink(scn):
+    if scn.get("variant") == "calibration":
+        return
     yield from obs.shrink_observation(scn)
     for k in ("pollute", "nd_args"):
         if scn.get(k):
@@ -169,7 +180,56 @@ def _standalone(scn, combo):
     return {b: np.asarray(ds[b].values) for b in ref.BUCKETS if b in ds.data_vars}
 
 
+def execute_calibration(scn, forced=None):
+    """Every candidate evaluation starts from a fresh copy; the caller's objects are untouched."""
+    from .. import calib, probes
+
+    viol, stats = [], {"variant:calibration": 1}
+    hooks = {}
+
+    def pre(cal, det, pipe):
+        if scn.get("nd_args"):
+            _ndify(pipe)
+        hooks["before"] = {"detector": snapshot(det), "pipeline": snapshot(pipe), "readout": snapshot(cal.readout)}
+
+    rec = calib.run_calibration(scn, forced=forced, pre_run=pre)
+    sim = rec.get("sim") or {}
+    if rec["exc"] is not None:
+        exc = rec["exc"]
+        sig = "C06.liveness@calibration" if type(exc).__name__ == "SimDeadlock" else f"C06.runs@calibration-raises:{type(exc).__name__}"
+        viol.append({"clause": "C06.runs", "signature": sig, "detail": {"exc": repr(exc)[:300], "tb": rec.get("tb", "")[-600:]}})
+    else:
+        cal, det, pipe = rec["objects"]
+        after = {"detector": snapshot(det), "pipeline": snapshot(pipe), "readout": snapshot(cal.readout)}
+        for part in ("detector", "pipeline", "readout"):
+            d = _diff(hooks["before"][part], after[part], part)
+            if d:
+                viol.append({"clause": "C06.caller-unchanged", "signature": f"C06.caller-unchanged@{part}+calibration", "detail": d})
+        firsts = {}
+        for ev in rec["hist"]:
+            if ev["name"] == "cal" and ev["run"] not in firsts:
+                firsts[ev["run"]] = ev
+        for rid, ev in firsts.items():
+            kw = ev["kwargs"]
+            if ev.get("mem", 0) != 0 or expo.norm(kw.get("extra")) != {"k": 1} or [float(x) for x in np.asarray(kw.get("mvec")).ravel()] != [1.0, 2.0]:
+                viol.append({"clause": "C06.run-equals-standalone", "signature": "C06.evaluation-not-fresh@calibration" + ("+nd-args" if scn.get("nd_args") else ""), "detail": {"evaluation": rid, "detector_memory": ev.get("mem"), "extra": expo.norm(kw.get("extra")), "mvec": expo.norm(kw.get("mvec"))}})
+                break
+        stats["calibration_evaluations"] = len(firsts)
+    return {
+        "violations": viol,
+        "stats": stats,
+        "nontrivial": True,
+        "key": hashlib.sha256(repr((scn["mode"]["algorithm"], scn["mode"]["num_islands"], scn["sched"], scn.get("nd_args"))).encode()).hexdigest()[:16],
+        "digest": (sim.get("digest") or "") + ":" + obs.hist_digest(rec["hist"]),
+        "sim_time": float(sim.get("now") or 0.0),
+        "decisions": sim.get("decisions") or [],
+        "sample": {"variant": "calibration", "islands": scn["mode"]["num_islands"], "nd_args": scn.get("nd_args")},
+    }
+
+
 def execute(scn, forced=None):
+    if scn.get("variant") == "calibration":
+        return execute_calibration(scn, forced)
     import pyxel
 
     viol, stats = [], {}
